@@ -91,6 +91,9 @@ func Run(c Case) core.Result {
 	if c.Stepwise {
 		res.Labels = append(res.Labels, "stepwise")
 	}
+	if c.Proto != 0 {
+		res.Labels = append(res.Labels, fmt.Sprintf("announced-version=%d.x", c.Proto>>16))
+	}
 	if len(r.Panics) > 0 {
 		// a panic is C04's concern; the bytes written before it must still be well formed
 		res.Labels = append(res.Labels, "panic-seen")
